@@ -229,12 +229,8 @@ impl Rasn {
         if constraints.is_empty() {
             return Ok(TokenStream::new());
         }
-        let mut permitted_alphabet = PerVisibleAlphabetConstraints::default_for(string_type);
-        for c in constraints {
-            if let Some(mut p) = PerVisibleAlphabetConstraints::try_new(c, string_type)? {
-                permitted_alphabet += &mut p
-            }
-        }
+        let mut permitted_alphabet =
+            PerVisibleAlphabetConstraints::try_from_constraints(constraints, string_type)?;
         permitted_alphabet.finalize();
         let alphabet_unicode = permitted_alphabet
             .charset_subsets()
